@@ -252,7 +252,7 @@ func synthesisable(pt, recv reflect.Type) bool {
 //	*Grouping there, the entries under Entry.Deviations a *Deviation, pending augments an *Augment:
 //	Modules() and InstantiatingModule() panic with an interface conversion, and so does Find with
 //	an absolute path whose first step carries a prefix (`m != e.Node.(*Module)`).
-var guardRootNotModule = true
+var guardRootNotModule = false // repaired in /repo e3294d5 (D69): the calls are made
 
 // rootIsModule reports whether the root entry above e was made from a module node.
 func rootIsModule(e *yang.Entry) bool {
@@ -732,6 +732,11 @@ func (rb *readback) ytype(t *yang.YangType, e *yang.Entry, depth int) {
 		return
 	}
 	rb.seenT[t] = true
+	// Equal, Contains and the like compare everything below the receiver: a budget of types per history
+	// (a union nested 10^4 deep has 10^4 types, each comparing 10^4 levels)
+	if len(rb.seenT) > 400 {
+		return
+	}
 	ctx := &callCtx{entry: e}
 	if t.Root != nil {
 		ctx.same = append(ctx.same, reflect.ValueOf(t.Root))
